@@ -411,6 +411,9 @@ def settle (c : Conn) : Conn := settleAux .fixed 10000 c
 def parseMsg (s : String) : Option CMsg :=
   if s = "fresh" then some .fresh else if s = "garbage" then some .garbage
   else if s = "failing" then some .failing
+  -- a handler that panics (with a string, an error value, a runtime error): the barrier of
+  -- `callInterfaceFunc` turns it into the handler's error, the same path
+  else if s = "panics" || s = "panicerr" || s = "panicidx" then some .failing
   else if s = "nostop" then some .nostop else if s = "noout" then some .noout
   else if s.startsWith "reuse" then (s.drop 5).toString.toNat?.map .reuse else none
 
